@@ -608,6 +608,12 @@ Proof.
       split; [apply incl_refl|]. intros V HD HG. split; [reflexivity|]. intros y Hy; left; exact Hy.
     + eapply K; [exact H|].
       split; [apply incl_refl|]. intros V HD HG. split; [reflexivity|]. intros y Hy; left; exact Hy.
+  - (* PContinue *)
+    destruct ld as [|[|ld']]; [discriminate| |].
+    + destruct ml; (eapply K; [exact H|]);
+        (split; [apply incl_refl|]; intros V HD HG; split; [reflexivity|]; intros y Hy; left; exact Hy).
+    + eapply K; [exact H|].
+      split; [apply incl_refl|]. intros V HD HG. split; [reflexivity|]. intros y Hy; left; exact Hy.
   - eapply K; [exact H|].
     split; [apply incl_refl|]. intros V HD HG. split; [reflexivity|]. intros y Hy; left; exact Hy.
   - eapply K; [exact H|].
